@@ -320,5 +320,6 @@ RULE = ('(a) exhaustive grid nele in [-1, 2norb+2], m_s in [-norb-2, norb+2], no
         'constructors; (b) random Gaussian-integer bra/ket, all symmetry modes, N/Sz/S^2/T as expectation and '
         'transition values; (c) restricted Hermitian Hamiltonians, time grid, conservation of <N>,<Sz>,<S^2>, '
         'sectors, norm and [H,S^2]psi=0. non-trivial: S^2 or T value non-zero / norb>=1')
-NOT_PROVED = ['the intertwining of time reversal with the ladder operators is not proved in Coq (checked on the '
-              'implementation and through the oracle values only)']
+NOT_PROVED = ['conservation is proved for every polynomial propagator (what the code computes), not for the limit '
+              'exp(-iHt); that the spin-conserving (not spin-free) sparse Hamiltonians of the generator conserve Sz is '
+              'covered by the zero-shift sector theorem, their S^2 behaviour is checked on the implementation only']
